@@ -795,6 +795,49 @@ theorem C02_call_forms_outcome (am ph : PRBM ℝ n h a) (v vp : Fin n → ℝ) (
     · obtain ⟨o, ho, hs, _⟩ := rhoCall_batch_vec_expand am ph B vs vp
       simp [sh, ho, hs, rhoRankOutcome, Except.toOption]
 
+/-- **C02.7f** the pointwise definitions the driver op `c02.eval` has executed since round 1 (`gammaMatrix`, `gammaPaired`, `piMatrix`,
+`piPaired`, `rhoMatrix`, `rhoPaired`) are the entries of the transcribed code on the same batches: `[i, j]` of the `expand=True` call
+resp. `[i]` of the `expand=False` call on equal batch sizes — for `gamma` (any sign, any network), `pi` and `rho`. -/
+theorem C02_call_forms_pointwise_defs (am ph : PRBM ℝ n h a) (sgn : ℝ) (B B' : ℕ) (vs vs' : Fin B → Fin n → ℝ) (ws : Fin B' → Fin n → ℝ)
+    (ext : ∀ {C : ℕ}, (Fin C → Fin n → ℝ) → ℕ → Fin n → ℝ)
+    (hext : ∀ {C : ℕ} (f : Fin C → Fin n → ℝ) (i : Fin C), ext f i.val = f i) :
+    (∃ g, am.gammaCall sgn (.ofRows B (ext vs)) (.ofRows B' (ext ws)) true = .ok g ∧ g.shape = [B, B']
+        ∧ ∀ (i : Fin B) (j : Fin B'), g.get [i.val, j.val] = am.gammaMatrix sgn vs ws i j)
+      ∧ (∃ g, am.gammaCall sgn (.ofRows B (ext vs)) (.ofRows B (ext vs')) false = .ok g ∧ g.shape = [B]
+        ∧ ∀ i : Fin B, g.get [i.val] = am.gammaPaired sgn vs vs' i)
+      ∧ (∃ p, piCall am ph (.ofRows B (ext vs)) (.ofRows B' (ext ws)) true = .ok p ∧ p.shape = [B, B']
+        ∧ ∀ (i : Fin B) (j : Fin B'), p.get [i.val, j.val] = piMatrix am ph vs ws i j)
+      ∧ (∃ p, piCall am ph (.ofRows B (ext vs)) (.ofRows B (ext vs')) false = .ok p ∧ p.shape = [B]
+        ∧ ∀ i : Fin B, p.get [i.val] = piPaired am ph vs vs' i)
+      ∧ (∃ o, rhoCall am ph (.ofRows B (ext vs)) (some (.ofRows B' (ext ws))) true = .ok o ∧ o.shape = [B, B']
+        ∧ ∀ (i : Fin B) (j : Fin B'), o.get [i.val, j.val] = rhoMatrix am ph vs ws i j)
+      ∧ (∃ o, rhoCall am ph (.ofRows B (ext vs)) (some (.ofRows B (ext vs'))) false = .ok o ∧ o.shape = [B]
+        ∧ ∀ i : Fin B, o.get [i.val] = rhoPaired am ph vs vs' i) := by
+  have hBB : pairedBatch B B = .ok B := by simp [pairedBatch]
+  refine ⟨?_, ?_, ?_, ?_, ?_, ?_⟩
+  · obtain ⟨g, hg, hs, he⟩ := PRBM.gammaCall_matrix am sgn B B' (ext vs) (ext ws)
+    exact ⟨g, hg, hs, fun i j => by rw [he i.val j.val i.isLt j.isLt, hext, hext]; rfl⟩
+  · have hq := PRBM.gammaCall_paired am sgn B B (ext vs) (ext vs')
+    rw [hBB] at hq
+    obtain ⟨g, hg, hs, he⟩ := hq
+    exact ⟨g, hg, hs, fun i => by rw [he i.val i.isLt, bsel_lt i.isLt, hext, hext]; rfl⟩
+  · obtain ⟨p, hp, hs, he⟩ := piCall_matrix am ph B B' (ext vs) (ext ws)
+    exact ⟨p, hp, hs, fun i j => by rw [he i.val j.val i.isLt j.isLt, hext, hext]; rfl⟩
+  · have hq := piCall_paired am ph B B (ext vs) (ext vs')
+    rw [hBB] at hq
+    obtain ⟨p, hp, hs, he⟩ := hq
+    exact ⟨p, hp, hs, fun i => by rw [he i.val i.isLt, bsel_lt i.isLt, hext, hext]; rfl⟩
+  · obtain ⟨o, ho, hs, he⟩ := rhoCall_matrix am ph B B' (ext vs) (ext ws)
+    exact ⟨o, ho, hs, fun i j => by rw [he i.val j.val i.isLt j.isLt, hext, hext]; rfl⟩
+  · have hq := rhoCall_paired am ph B B (ext vs) (ext vs')
+    rw [hBB] at hq
+    obtain ⟨o, ho, hs, he⟩ := hq
+    exact ⟨o, ho, hs, fun i => by rw [he i.val i.isLt, bsel_lt i.isLt, hext, hext]; rfl⟩
+
+/-- the extension hypothesis of `C02_call_forms_pointwise_defs` is satisfiable: rows beyond the batch are arbitrary (zero here) -/
+example : ∃ ext : ∀ {C : ℕ}, (Fin C → Fin n → ℝ) → ℕ → Fin n → ℝ, ∀ {C : ℕ} (f : Fin C → Fin n → ℝ) (i : Fin C), ext f i.val = f i :=
+  ⟨fun {C} f k => if hk : k < C then f ⟨k, hk⟩ else fun _ => 0, fun f i => by simp [i.isLt]⟩
+
 /-- non-vacuity: a concrete 2-qubit model with all biases non-zero; the single-element form on `v = (1,0) ≠ v' = (0,1)` is entry
 `[0, 1]` of the full-matrix form on the batch `[(1,0), (0,1)]` and entry `[0]` of the paired form on `[(1,0)]`, `[(0,1)]`. -/
 example :
